@@ -882,7 +882,7 @@ def main(tier: str, seed: int) -> int:
     phase("scenarios")
 
     # (d) TLC judges
-    chunk = max(8, -(-len(traces) // 8)) if quick else 40  # quick: one JVM per worker
+    chunk = max(8, -(-len(traces) // 6)) if quick else 40  # quick: six JVMs
     res = tlc.validate("TransportTrace", traces, chunk=chunk, parallel=8)
 
     ROOT = ("ReplyOnSameSession", "SessionKeyedByConversation", "ServedWhenOpen", "TerminateReportsRemoval")
@@ -911,7 +911,7 @@ def main(tier: str, seed: int) -> int:
 
     small = [i for i, t in enumerate(traces) if t["meta"].get("kind") != "scenario"]
     sub = {"results": [res["results"][i] for i in small], "stuck": [res["stuck"][i] for i in small], "states": 0, "distinct": 0}
-    common.binding_selftest(chk, "TransportTrace", [traces[i] for i in small], sub)
+    common.binding_selftest(chk, "TransportTrace", [traces[i] for i in small], sub, n=2 if quick else 4)
     common.judge_traces(chk, "Transport", traces, res, sig)
     phase("validate_and_selftest")
     # a rejected trace is examined no further than its first divergence: look behind it with the failed clauses skipped
